@@ -281,6 +281,10 @@ func instrumentPkg(repo, rel, pkgName, out string, replace map[string]string, fu
 					if rewriteSwitch(x, info, fset, relName, sf.src, base, add) {
 						used = true
 					}
+				case *ast.IndexExpr:
+					if rewriteMapIndex(x, info, fset, relName, sf.src, base, add) {
+						used = true
+					}
 				case *ast.BinaryExpr:
 					if rewriteCompare(x, info, fset, relName, off, add) {
 						used = true
@@ -452,6 +456,34 @@ func rewriteSwitch(x *ast.SwitchStmt, info *types.Info, fset *token.FileSet, fil
 	}
 	id := newSite(fset, file, x.Pos(), "switch-string")
 	add(int(x.Pos())-base, 0, fmt.Sprintf("verifrt.SwitchS(%d, string(%s), %s);", id, text(x.Tag), strings.Join(cases, ", ")), false)
+	return true
+}
+
+// rewriteMapIndex routes the key of a lookup in a map with string keys through
+// verifrt.MapProbe (only for maps named by a plain identifier or selector: it is evaluated twice).
+func rewriteMapIndex(x *ast.IndexExpr, info *types.Info, fset *token.FileSet, file string, src []byte, base int, add func(int, int, string, bool)) bool {
+	if info == nil {
+		return false
+	}
+	t := info.TypeOf(x.X)
+	if t == nil {
+		return false
+	}
+	mt, ok := t.Underlying().(*types.Map)
+	if !ok || !isStringType(mt.Key()) {
+		return false
+	}
+	switch x.X.(type) {
+	case *ast.Ident, *ast.SelectorExpr:
+	default:
+		return false
+	}
+	if tv, ok := info.Types[x.Index]; ok && tv.Value != nil {
+		return false // constant key
+	}
+	id := newSite(fset, file, x.Lbrack, "map-index")
+	add(int(x.Index.Pos())-base, 0, fmt.Sprintf("verifrt.MapProbe(%d, ", id), false)
+	add(int(x.Index.End())-base, 0, ", "+string(src[int(x.X.Pos())-base:int(x.X.End())-base])+")", true)
 	return true
 }
 
